@@ -1,5 +1,5 @@
 import Secp.Proofs.LimbLawful
-import Secp.Proofs.Reduce
+import Secp.Proofs.ReduceP
 /-!
 # Base field: `FromMontgomery`, `ToMontgomery`, `Reduce` at the value level
 -/
